@@ -21,6 +21,7 @@ import (
 	"pgregory.net/rapid"
 
 	"verifharness/hx"
+	"verifharness/wire"
 )
 
 // payload is the body belonging to an id: every 4 KiB block starts with the id,
@@ -84,6 +85,7 @@ func newConcChain(flush time.Duration) *concChain {
 	c.table = tbl
 	cache := route.NewGlobCache(100)
 	c.px = httptest.NewServer(&proxy.HTTPProxy{
+		Stats:     wire.Stats(),
 		Config:    config.Proxy{FlushInterval: flush},
 		Transport: &http.Transport{DisableCompression: true, MaxIdleConnsPerHost: 64},
 		Lookup: func(r *http.Request) *route.Target {
